@@ -383,7 +383,7 @@ template<class T> static void long_mode(const Args &A, Mode md, unsigned rounds)
 			if (sel == 0) special(z, 7, md.e);
 			else if (sel == 1) { special(z, 7, md.e); mpz_add_ui(z, z, 1); }          // one above the maximum: must be refused
 			else if (sel == 2) special(z, gen().below(NSPECIAL), md.e);
-			else if (sel == 3) gen_bits(z, 1 + gen().below(12000));
+			else if (sel == 3) gen_bits(z, 1 + gen().below(A.thorough() ? 12000 : 3000));
 			else gen_bits(z, 1 + gen().below(700));
 			bool ok = s.send(z, r % 2 == 0 || sel < 3);
 			if (sel == 1 && ok) propfail("oversize-accepted", "Send accepted a value above the documented maximum " + zhex(z));
@@ -412,7 +412,8 @@ template<class T> static void fault_mode(const Args &A, Mode md, unsigned stride
 		std::vector<std::string> del = run_recv<T>(md, evs);
 		if (md.a && !is_prefix(del, s.sent))
 			propfail(ivreg ? std::string("tamper-iv") : "tamper-" + md.tok(), what + (ivreg ? " mode " + md.tok() : std::string()) + ": sent " + vtok(s.sent) + " delivered " + vtok(del) + " wire " + xb(w) + " tampered " + xb(t));
-		if (md.a && strict && t != w && del.size() == s.sent.size())
+		// a tampered stream that merely continues the honest one (w is a prefix of t) changes nothing that was sent
+		if (md.a && strict && t != w && t.compare(0, w.size(), w) != 0 && del.size() == s.sent.size())
 			propfail("tamper-complete-" + md.tok(), what + ": all messages delivered although the wire was modified: " + xb(t));
 	};
 	for (size_t o = 0; o <= w.size(); o++) {
@@ -589,23 +590,39 @@ template<class T> static void multi_mode(const Args &A, Mode md, size_t sched, u
 		}
 		std::vector<std::vector<std::string>> w(n, std::vector<std::string>(n)); std::vector<std::vector<size_t>> off(n, std::vector<size_t>(n, 0));
 		for (size_t i = 0; i < n; i++) for (size_t j = 0; j < n; j++) { w[i][j] = drain(S[i][j]->r); if (w[i][j].empty()) R[i][j]->closew(); }
-		size_t recvd = 0; unsigned idle = 0;
+		size_t recvd = 0;
 		size_t dir = 0;
-		while (idle < 30) {
-			// forward a random chunk on every link that still has bytes (so no round waits on an empty descriptor)
+		bool bad_index = false;
+		auto one_call = [&](size_t p, size_t from_direct) -> bool {
+			size_t from = from_direct;
+			bool ok = ep[p]->Receive(z, from, sched, 0);
+			if (ok) {
+				if (from >= n) { if (!bad_index) propfail("multi-index-" + md.tok(), "Receive returned true with sender index " + std::to_string(from)); bad_index = true; return false; }
+				got[from][p].push_back(zhex(z)); recvd++;
+			}
+			return ok;
+		};
+		// phase 1: forward a random chunk on every link that still has bytes (so no round waits on an empty descriptor),
+		// then one Receive call at a random party
+		for (;;) {
+			bool pending = false;
 			for (size_t i = 0; i < n; i++) for (size_t j = 0; j < n; j++) if (off[i][j] < w[i][j].size()) {
 				size_t c = 1 + gen().below(r % 2 ? 25 : 300); if (c > w[i][j].size() - off[i][j]) c = w[i][j].size() - off[i][j];
 				put(R[i][j]->w, w[i][j].substr(off[i][j], c)); off[i][j] += c;
-				if (off[i][j] == w[i][j].size()) R[i][j]->closew();
+				if (off[i][j] == w[i][j].size()) R[i][j]->closew(); else pending = true;
 			}
-			size_t p = gen().below(n), from = 0;
-			bool ok;
-			if (sched == aiounicast::aio_scheduler_direct) { from = dir++ % n; ok = ep[p]->Receive(z, from, sched, 0); }
-			else ok = ep[p]->Receive(z, from, sched, 0);
-			if (ok) {
-				if (from >= n) { propfail("multi-index-" + md.tok(), "Receive returned true with sender index " + std::to_string(from)); break; }
-				got[from][p].push_back(zhex(z)); recvd++; idle = 0;
-			} else idle++;
+			one_call(gen().below(n), dir++ % n);
+			if (!pending) break;
+		}
+		// phase 2 (everything forwarded, all write ends closed: calls return at once): sweep deterministically until a
+		// whole sweep delivers nothing; the random scheduler gets enough calls per party to visit every link
+		for (unsigned sweep = 0; sweep < 400; sweep++) {
+			bool any = false;
+			for (size_t p = 0; p < n; p++) {
+				if (sched == aiounicast::aio_scheduler_direct) { for (size_t f = 0; f < n; f++) for (int k = 0; k < 3; k++) if (one_call(p, f)) any = true; }
+				else { unsigned calls = (sched == aiounicast::aio_scheduler_random) ? 60 : 6; for (unsigned k = 0; k < calls; k++) if (one_call(p, 0)) any = true; }
+			}
+			if (!any) break;
 		}
 		mpz_clear(z);
 		for (size_t i = 0; i < n; i++) for (size_t j = 0; j < n; j++) if (got[i][j] != sent[i][j])
@@ -620,21 +637,20 @@ template<class T> static void multi_mode(const Args &A, Mode md, size_t sched, u
 template<class T> static void for_variant(const Args &A, const std::string &sec, Mode md, unsigned shard, unsigned nshards) {
 	const bool th = A.thorough();
 	if (sec == "split") {
-		unsigned nv = th ? 4 : 1;
-		for (unsigned v = 0; v < nv; v++) split_mode<T>(A, md, th ? 1 : 5, v + shard);
+		split_mode<T>(A, md, th ? 1 : 5, shard);
+		if (th) split_mode<T>(A, md, 3, shard + 1);
 	} else if (sec == "fault") {
-		unsigned nv = th ? 2 : 1;
-		for (unsigned v = 0; v < nv; v++) fault_mode<T>(A, md, th ? 1 : (md.e ? 9 : 4), v + shard);
+		fault_mode<T>(A, md, th ? 1 : (md.e ? 9 : 4), shard);
 	} else if (sec == "long") {
-		long_mode<T>(A, md, th ? 12 : 3);
-		garbage_mode<T>(A, md, th ? 60 : 12);
+		long_mode<T>(A, md, th ? 6 : 2);
+		garbage_mode<T>(A, md, th ? 30 : 10);
 		neg_mode<T>(md);
 	} else if (sec == "enc") {
-		if (md.e) enc_mode<T>(A, md, th ? 40 : 8);
-		arr_take<T>(md, th ? 200 : 40);
-		array_mode<T>(A, md, th ? 12 : 3);
+		if (md.e) enc_mode<T>(A, md, th ? 24 : 8);
+		arr_take<T>(md, th ? 120 : 40);
+		array_mode<T>(A, md, th ? 8 : 3);
 	} else if (sec == "multi") {
-		for (size_t s = 1; s <= 3; s++) multi_mode<T>(A, md, s, th ? 3 : 1);
+		for (size_t s = 1; s <= 3; s++) multi_mode<T>(A, md, s, th ? 2 : 1);
 	}
 	(void)nshards;
 }
